@@ -1,0 +1,31 @@
+//! Verification hooks and facade (feature `verif`, off by default).
+//!
+//! Nothing in here is used by the engine itself: the module offers process-global sinks that the
+//! guarded hook sites report to, and thin public wrappers over crate-private pieces so that an
+//! external harness can drive and observe them with plain data.
+
+use parking_lot::RwLock;
+use std::path::PathBuf;
+
+/// One mutation of a database file, as issued by [`crate::io::disk::DBFile`].
+#[derive(Debug, Clone)]
+pub enum IoEvent {
+    Create { path: PathBuf },
+    Write { path: PathBuf, offset: u64, bytes: Vec<u8> },
+    SetLen { path: PathBuf, len: u64 },
+    Sync { path: PathBuf },
+}
+
+type IoSink = Box<dyn Fn(IoEvent) + Send + Sync>;
+static IO_SINK: RwLock<Option<IoSink>> = RwLock::new(None);
+
+/// Installs (or removes) the sink every file mutation is reported to.
+pub fn set_io_sink(sink: Option<IoSink>) {
+    *IO_SINK.write() = sink;
+}
+
+pub(crate) fn io_event(ev: IoEvent) {
+    if let Some(sink) = IO_SINK.read().as_ref() {
+        sink(ev);
+    }
+}
